@@ -28,6 +28,7 @@ ASSUMPTIONS = [
     "LG/WAG tables taken as data from the model object (pinned by C04)",
 ]
 BUDGET = {"quick": 75, "thorough": 900}
+ROUNDS = {"thorough": 16}
 FLOORS = {"compared": {"quick": 250, "thorough": 2500}, "brute_force": {"quick": 150, "thorough": 1500},
           "subst_kinds": 9, "site_kinds": 4, "pruning_vs_brute": 20}
 
